@@ -38,6 +38,85 @@ prop("C20", "path-sensitive abstract interpretation: exact accept-region compari
      "Third-party predicates (Uuid::is_nil/is_max, xen flag validity) are opaque booleans.",
      "DESIGN.md §3 C20")
 
+prop("C02", "dispatch-table, argument-provenance and delegation rules over MIR; must-facts at frontend send sites",
+     "Per dispatch arm the handler method called (exactly once, no loop), the provenance of each handler argument (decoded body field / "
+     "payload / received file), delegation of all ~160 adapter methods, and the local rejection conditions of the frontend API as exact "
+     "must-facts at the send site. Closes the value path caller -> wire -> handler field by field together with C01.",
+     "Not decided: run-time equality of values and fd identity; positions in longer sessions.", "DESIGN.md §3 C02")
+prop("C03", "path enumeration with interprocedural summaries; failure-encoding facts at reply sites; reply-framing provenance",
+     "Backend: reply body/descriptor provenance from the handler's Ok value and in-band failure encodings on the Err edges. Frontend: every "
+     "Ok path of every reply-bearing operation lies inside the reference accept set and returns the received value; every send is followed by "
+     "its receiver on all success paths; variable-length replies are sized from the reply's own header.",
+     "Not decided: wall-clock bounds; applications ignoring BackendReqHandler errors.", "DESIGN.md §3 C03")
+prop("C04", "exhaustive path enumeration of the dispatch function with helper summaries (send counting, ordering)",
+     "On every CFG path of every arm: typed-reply requests send exactly one reply on success and never an ack; ack-able requests send at most "
+     "one message, only via the ack helper, exactly once after the handler; ack condition, value mapping, reply-ack flag formula and its "
+     "recomputation; reply header provenance; exactly one header and one body read.",
+     "Not decided: 'k-th reply answers k-th request' as a trace property (manual induction from <=1 send per request).", "DESIGN.md §3 C04")
+prop("C05", "must-fact validation rules + panic-edge audit over the call-graph closure with discharge classes + raw-read guards",
+     "Handler preconditions as must-facts at every handler call site; every panic-capable operation (asserts, unwrap/index/alloc/shift calls) "
+     "reachable from the backend's request entry points, daemon handler, worker loop and dirty-log bitmap is discharged by a constant, a "
+     "must-fact guard or a reviewed invariant row with a machine-checked requirement; raw reads of the receive buffer are length-guarded.",
+     "Third-party crates called with wire-derived values are assumptions; <=64 queues; kernel returns <= bytes requested.", "DESIGN.md §3 C05")
+prop("C06", "receiver path summaries (acceptance facts on every Ok path), policy/use set comparison, panic-edge audit",
+     "Every success path of every reply receiver carries is_reply_for, body validity, the descriptor condition and payload framing; is_reply_for's "
+     "true paths carry all five conjuncts; the frontend-request server's file policy equals the use of files and the protocol table; "
+     "panic-capable operations in these parsers are discharged.",
+     "Not decided: that every mutated byte string is rejected (union of the conjuncts with C20's exact regions).", "DESIGN.md §3 C06")
+prop("C08", "loop-shape rules over CFG/must-facts, path classification of receivers, errno table agreement",
+     "Send/receive loop shape (offset = running count, zero-byte exit, retry class only, fds first chunk), sender total comparison, header/body "
+     "receiver classification (Disconnected/Partial/Invalid), errno class table, request bodies read by a looping receiver, reply length from "
+     "the reply header. Partial claim: structural clauses only.",
+     "Not decided: the iovec offset helper numerically, real partial transfers, timing.", "DESIGN.md §3 C08")
+prop("C09", "ownership/escape audit of every raw-descriptor operation + drop-flag-aware must-drop analysis",
+     "Received descriptors wrapped immediately and completely; every into_raw_fd re-wrapped directly; no forget/leak; from_raw_fd/close only on "
+     "owned descriptors; handler signatures take descriptors by value; the received file vector is moved or dropped on every path (drop flags "
+     "interpreted).",
+     "Assumes vmm-sys-util closes undeliverable descriptors.", "DESIGN.md §3 C09")
+prop("C10", "lock-discipline analysis: guard acquisition count, receiver provenance, guard liveness, who-may-call",
+     "Each I/O-performing public method of Frontend/Backend/GpuBackend acquires the endpoint mutex exactly once outside loops, every I/O call takes "
+     "its receiver from that guard, the guard is not dropped before the last I/O call, and the guarded socket is not reachable otherwise.",
+     "Not decided: mutex fairness, peer behaviour, actual interleavings.", "DESIGN.md §3 C10")
+prop("C11", "transition-effect table + post-dominance and must-fact rules on the control handlers and registration function",
+     "Transition by transition: prescribed ring-state mutations per control message, registration update after every mutation of a registration "
+     "input, epoll add only under started && enabled with one id, dispatch gate vs registration predicate, eventfd consumed only when active, "
+     "level-triggered registration. Partial claim.",
+     "Not decided: message sequences, eventual delivery. One known finding (gate reads only `enabled`).", "DESIGN.md §3 C11")
+prop("C12", "lock/order discipline rules (guard scope, dominance order, consume-implies-dispatch paths)",
+     "read_kick under one guard; state change dominates the epoll update in every disabling/stopping handler; worker paths with a true gate reach "
+     "the backend's handle_event; gate-to-dispatch critical section. Partial claim: the discipline, not the interleavings.",
+     "Not decided: interleavings themselves. One known finding (dispatch outside the ring lock).", "DESIGN.md §3 C12")
+prop("C13", "commit-ordering reachability rule, field provenance, linear-form match with must-facts, notification counting",
+     "No error exit after the first state mutation; memory region and translation entry from the same wire region; translation = va - base + gpa "
+     "under exact bounds; one backend notification per success; removal keys. Partial claim.",
+     "Not decided: byte visibility, vm-memory internals. Known finding: update_memory can fail after the commit (3 handlers).", "DESIGN.md §3 C13")
+prop("C14", "must-fact and provenance rules on the daemon's control handlers and VringState",
+     "Checked ring lookup in every per-ring handler, size bounds, address/index provenance, feature subset test and EVENT_IDX propagation to all "
+     "rings and the backend, channel inheritance, fresh memory snapshot per ring operation, current call descriptor, adapter delegation.",
+     "Not decided: constraints enforced inside virtio-queue.", "DESIGN.md §3 C14")
+prop("C15", "who-may-write rule on atomic ops, expression-shape and must-fact rules on the bitmap code, ordering rule on SET_LOG_BASE",
+     "Only fetch_or writes the log; word/bit index expressions and constants; inclusive page range; dereference guarded by index < len; creation "
+     "bounded by the log size; build-then-replace; log persistence across memory-table changes. Partial claim.",
+     "Not decided: the arithmetic as a numeric function. Known finding: the log is not applied to regions added later.", "DESIGN.md §3 C15")
+prop("C16", "dominance/post-dominance and path-classification rules on shutdown, the daemon thread, wait, serve and Drop",
+     "Flag store before socket shutdown with Release/Acquire pairing; daemon thread leaves its loop only on a request error and shuts the connection "
+     "down on every exit; wait's result classification and state reset; serve's exit events and disconnect mapping; Drop signals then joins. "
+     "Partial claim.",
+     "Not decided: bounded time, the races, peer observations.", "DESIGN.md §3 C16")
+prop("C17", "term-agreement and bound rules on exit/listener/ring ids; loop-exit rule; argument provenance",
+     "Exit id registered == id compared (guarded); listener ids outside the reserved range and within the dispatcher's 16-bit event id; ring id "
+     "flows unchanged to add/delete; first matching thread only; dispatcher argument order; slice membership by mask bit. Partial claim.",
+     "Not decided: the rank formula and slice order as numeric results.", "DESIGN.md §3 C17")
+prop("C18", "instantiation of the dispatch/ack/gate rule families for the backend->frontend channel (paths + must-facts)",
+     "Proxy sets NEED_REPLY iff negotiated, waits iff negotiated, succeeds only for ack value 0; server arms call the protocol's handler with the "
+     "decoded body and files[0], one ack after the handler iff negotiated && NEED_REPLY with value n / -errno / -EINVAL, handler result returned.",
+     "Not decided: value equality at run time, ack ordering as a trace property.", "DESIGN.md §3 C18")
+prop("C19", "UAPI agreement: ioctl numbers/layouts recomputed from MIR+layout and compared with <linux/vhost.h> by clang _Static_assert; op->ioctl table; provenance",
+     "Every ioctl number, binding struct size/offsets, constants and enum codes equal the installed kernel header's (compile-time assertions, nothing "
+     "executed); each trait operation issues exactly its UAPI request through the wrapper of its direction and returns ioctl_result; argument field "
+     "provenance; IOTLB v1/v2 selection and field mapping; validity guard and accepting-path tests before VHOST_SET_VRING_ADDR.",
+     "Trusted additionally: clang and the installed kernel headers. Not decided: kernel behaviour.", "DESIGN.md §3 C19")
+
 NOT_YET = {}
 
 
